@@ -63,9 +63,11 @@ ItemsShapes == { <<"list1-iri", ListOf(<<I1>>)>>, <<"list2-iri", ListOf(<<I1, I3
 NlvShapes == { <<"plain", Nlv(<<LR(NilTag, "hello")>>)>>, <<"tagged1", Nlv(<<LR("en", "hello")>>)>>,
                <<"multi2", Nlv(<<LR("en", "hello"), LR("fr", "salut")>>)>>,
                <<"multi3", Nlv(<<LR("en", "hello"), LR("fr", "salut"), LR("de", "hallo")>>)>>,
-               <<"mixed", Nlv(<<LR(NilTag, "hello"), LR("fr", "salut")>>)>> }       \* an untagged value next to a tagged one ("-" key of a language map)
+               <<"mixed", Nlv(<<LR(NilTag, "hello"), LR("fr", "salut")>>)>>,       \* an untagged value next to a tagged one ("-" key of a language map)
+               <<"part-empty", Nlv(<<LR("en", "hello"), LR("fr", "")>>)>> }         \* one language carries the empty text: "nameMap":{"en":"hello","fr":""}
 TimeShapes(gob) == { <<"utc", T(1700000000, 0, 0)>>, <<"plus2", T(1700003600, 0, 7200)>>, <<"minus7", T(1600000000, 0, 0 - 25200)>>,
-                     <<"pre-epoch", T(0 - 1000000000, 0, 0)>>, <<"y2038", T(2147483647, 0, 3600)>>, <<"epoch-plus1", T(1, 0, 0)>> }
+                     <<"pre-epoch", T(0 - 1000000000, 0, 0)>>, <<"y2038", T(2147483647, 0, 3600)>>, <<"epoch-plus1", T(1, 0, 0)>>,
+                     <<"no-seconds", T(1700000040, 0, 0)>> }      \* a whole minute, which ActivityStreams lets a document write without the seconds: "2023-11-14T22:14Z"
                    \cup (IF gob THEN {<<"nanos", T(1700000001, 123456789, 3600)>>} ELSE {})
 DurShapes == { <<"pos", Dur(5)>>, <<"neg", Dur(0 - 5)>>, <<"hour", Dur(3725)>>, <<"day", Dur(86400)>>, <<"neg3days", Dur(0 - 259200)>>, <<"dayhour", Dur(90000)>>,
               <<"d28", Dur(2419200)>>, <<"neg29d", Dur(0 - 2505600)>>, <<"d340", Dur(29376000)>>, <<"d400h5", Dur(34578000)>> }   \* beyond the lengths of a month and a year
